@@ -2971,8 +2971,19 @@ fn convert_bytes_value_to_type2<'a>(
         let bytes_str = inner.as_str();
         // Remove quotes
         let content = &bytes_str[1..bytes_str.len() - 1];
+        // RFC 8610 3.1: the content "is interpreted as with a text string,
+        // except that single quotes must be escaped"
+        if has_invalid_unicode_escape(content) {
+          return Err(Error::PARSER {
+            position: pest_span_to_position(&inner.as_span(), input),
+            msg: ErrorMsg {
+              short: "Invalid escape in byte string".to_string(),
+              extended: None,
+            },
+          });
+        }
         return Ok(ast::Type2::UTF8ByteString {
-          value: Cow::Owned(content.as_bytes().to_vec()),
+          value: Cow::Owned(unescape_text(content).into_bytes()),
           span,
         });
       }
@@ -3043,8 +3054,16 @@ fn convert_bytes_value_to_type2<'a>(
         let bytes_str = inner.as_str();
         // Remove quotes
         let content = &bytes_str[1..bytes_str.len() - 1];
+        if has_invalid_unicode_escape(content) {
+          return Err(Error::PARSER {
+            msg: ErrorMsg {
+              short: "Invalid escape in byte string".to_string(),
+              extended: None,
+            },
+          });
+        }
         return Ok(ast::Type2::UTF8ByteString {
-          value: Cow::Owned(content.as_bytes().to_vec()),
+          value: Cow::Owned(unescape_text(content).into_bytes()),
         });
       }
       Rule::bytes_b16 => {
